@@ -941,6 +941,29 @@ func ruleU10(c *Ctx, id string) {
 								}
 							}
 						}
+						// "for i := range verf": go/ssa's rotated form - the index is <counter>+1, the counter starts at -1
+						if inc, isB := stripConv(bs.idx).(*ssa.BinOp); isB && !covers && inc.Op == token.ADD {
+							if ph, isP := stripConv(inc.X).(*ssa.Phi); isP {
+								one, isk1 := constInt(inc.Y)
+								initM1, back := false, false
+								for _, e := range ph.Edges {
+									if k, isk := constInt(e); isk && k == -1 {
+										initM1 = true
+									}
+									if e == ssa.Value(inc) {
+										back = true
+									}
+								}
+								for _, br := range branches(fn) {
+									if br.Cond.X == nil || br.Cond.Y == nil || stripConv(br.Cond.X) != ssa.Value(inc) || br.Cond.Op != token.LSS {
+										continue
+									}
+									if k, isk := constIntDeep(br.Cond.Y); isk && k == alen && (br.True == bs.st.Block() || br.True.Dominates(bs.st.Block())) {
+										covers = isk1 && one == 1 && initM1 && back
+									}
+								}
+							}
+						}
 						if !covers {
 							ok = false
 							why = fmt.Sprintf("the loop does not store all %d bytes (index from 0, step 1, while index < %d)", alen, alen)
